@@ -41,6 +41,7 @@ func helperReadDataRules(c *Ctx, prop string) {
 			if !strings.HasPrefix(ld(L.onInter), "func:") {
 				cfgProblems = append(cfgProblems, "Reader.OnIntermediate is not the control handler: "+ld(L.onInter))
 			}
+			cfgProblems = append(cfgProblems, readerPristine(mm, r.O, L, "readData")...)
 		}
 		mm.Emit(fold.Effect{Kind: "call", Name: "NextFrame", Args: cl.Args})
 		opts := 4
@@ -350,4 +351,95 @@ func helperReadMessageRules(c *Ctx, prop string) {
 func isRdRef(v fold.Val) bool {
 	o, ok := isObjRef(v)
 	return ok && strings.HasPrefix(o.Name, "rd#")
+}
+
+// readerPristine checks that a Reader a helper is about to use for a new
+// message carries nothing over from an earlier one: no frame, no payload left,
+// no message opcode, a UTF-8 reader in its initial state, no size limit the
+// helper did not set. A reused (pooled) reader must be indistinguishable from
+// a new one.
+func readerPristine(mm *fold.Machine, o *fold.Obj, L *readerLayout, who string) []string {
+	var out []string
+	ld := func(path ...int) string { return fold.Show(mm.Load(fold.Ref{O: o, Path: path})) }
+	check := func(what, got, want string) {
+		if got != want {
+			out = append(out, fmt.Sprintf("%s starts a message with a Reader whose %s is %s instead of %s: state of an earlier message (or of another connection, if readers are pooled) leaks into this one", who, what, got, want))
+		}
+	}
+	check("frame", ld(L.frame), "nil")
+	check("raw.N", ld(L.raw, 1), "0")
+	check("message opcode", ld(L.opCode), "0")
+	check("UTF-8 state", ld(uPath(L.utf8, L.utf8StateP)...), "0")
+	check("UTF-8 code point", ld(uPath(L.utf8, L.utf8CodepP)...), "0")
+	check("UTF-8 accepted count", ld(uPath(L.utf8, L.utf8AcceptedP)...), "0")
+	check("MaxFrameSize", ld(L.maxFrame), "0")
+	check("OnContinuation", ld(L.onCont), "nil")
+	return out
+}
+
+// helperNextReaderRules folds wsutil.NextReader: the Reader it creates reads
+// from exactly the source it was given (nothing in between that could read
+// ahead and keep bytes of the next frame) with the given state.
+func helperNextReaderRules(c *Ctx, prop string) {
+	rule := prop + ".helper-nextreader"
+	c.R.Rule(rule, 1, "NextReader reads the header through a new Reader on exactly the given source and state and returns that Reader")
+	L := c.readerLayout(rule)
+	f := c.fn(rule, wsutil, "NextReader")
+	if L == nil || f == nil {
+		return
+	}
+	m := c.machine()
+	var problems []string
+	var rdObj *fold.Obj
+	m.Models["(*"+wsutil+".Reader).NextFrame"] = func(cl *fold.Call) fold.Val {
+		mm := cl.M
+		r, _ := cl.Args[0].(fold.Ref)
+		rdObj = r.O
+		if got := nameOf(mm.Load(fold.Ref{O: r.O, Path: []int{L.source}})); got != "src" {
+			problems = append(problems, "the Reader reads from "+got+" instead of the source it was given: whatever sits in between may read past the header, and those bytes are lost when the per-message Reader is dropped")
+		}
+		if got := nameOf(mm.Load(fold.Ref{O: r.O, Path: []int{L.state}})); got != "s" {
+			problems = append(problems, "the Reader checks headers against state "+got+" instead of the given one")
+		}
+		problems = append(problems, readerPristine(mm, r.O, L, "NextReader")...)
+		mm.Emit(fold.Effect{Kind: "call", Name: "NextFrame"})
+		if mm.Choose("nf.err", 2) == 1 {
+			return fold.Tuple{headerVal(true, 0, 1, false, nil, fold.K(0)), fold.Sym{Name: "nf-error", NonNil: true}}
+		}
+		return fold.Tuple{headerVal(true, 0, 1, false, nil, fold.Int{Lo: 0, Hi: fold.MaxInt64, Name: "Length"}), fold.Nil{}}
+	}
+	paths := m.Explore(f, func(mm *fold.Machine) []fold.Val {
+		rdObj = nil
+		return []fold.Val{fold.Iface{V: fold.Sym{Name: "src", NonNil: true}}, fold.Int{Lo: 0, Hi: 255, Name: "s"}}
+	}, func(mm *fold.Machine, p *fold.Path) {
+		ret, _ := p.Ret.(fold.Tuple)
+		if len(ret) != 3 {
+			problems = append(problems, "unexpected result shape")
+			return
+		}
+		if len(p.Calls("NextFrame")) != 1 {
+			problems = append(problems, "NextReader does not read exactly one header")
+			return
+		}
+		e := c.errName(ret[2])
+		if p.Chose("nf.err") == 1 {
+			if e != "nf-error" {
+				problems = append(problems, "the header error is lost: "+e)
+			}
+			return
+		}
+		if e != "nil" {
+			problems = append(problems, "unexpected error "+e)
+		}
+		if o, ok := isObjRefAny(ret[1]); !ok || o != rdObj {
+			problems = append(problems, "the reader handed back is not the Reader that read the header: "+fold.Show(ret[1]))
+		}
+	})
+	for _, p := range paths {
+		if p.Abort != "" || p.Panic {
+			problems = append(problems, "undecided: "+p.Abort+panicNote(p))
+		}
+	}
+	c.R.AddCells(len(paths))
+	c.verdict(rule, rule+"/NextReader", c.P.FuncPos(f), uniq(problems), "new Reader on the given source and state")
 }
